@@ -18,7 +18,8 @@ METHODS = {8: ("unimock::mock::std::process::TerminationMock::report", 0),     #
 HAS_DEFAULT = {2, 3, 14, 15, 16, 17, 18, 19, 24, 30, 34, 35}
 HAS_UNMOCK_ARM = {0, 2, 10, 12, 13}          # 20 has an unmock_with entry but no arm (F1)
 CONSUMING = {16, 17, 18, 23, 24, 27, 28, 29, 30, 33, 34, 35}             # by value, sole-owner Rc / Arc
-PROVIDED_D = [14, 15, 16, 17, 18, 19, 21, 22, 24, 26, 27, 28, 30, 32, 34, 35]
+PROVIDED_D = [14, 15, 16, 17, 18, 19, 21, 22, 24, 26, 27, 28, 30, 32, 34, 35, 37]       # 37: HD::hprov (hidden-API trait: never in a clause)
+HIDDEN = [36, 37]
 
 
 def rust_pat(mid, p):
